@@ -1,3 +1,52 @@
-(* placeholder until the C12 theorems land *)
-Lemma c12_placeholder : True. Proof. exact I. Qed.
-Print Assumptions c12_placeholder.
+(* C12 -- damage to one header page falls back to the other. *)
+From Coq Require Import List NArith String.
+From Coq.Strings Require Import Byte.
+From Jamm Require Import Bytes Fnv Consts CLayout Meta FnvFacts MetaFacts.
+Import ListNotations.
+Local Open Scope N_scope.
+
+(* the checksum covers every stored field: pinned against the GENERATED hash_fields / struct layout, so
+   dropping a field from hash_self (or adding an unhashed field to Meta) breaks these two lemmas *)
+Theorem C12_hash_covers_all_fields :
+  forallb field_hashed ["meta_page";"magic";"version";"pagesize";"root.root_page";"root.next_int";"num_pages";"freelist_page";"tx_id"]%string = true.
+Proof. exact hash_covers_all_fields. Qed.
+Theorem C12_stored_fields :
+  CLayout.field_names "Meta" = ["meta_page";"magic";"version";"pagesize";"root.root_page";"root.next_int";"num_pages";"freelist_page";"tx_id";"hash"]%string.
+Proof. exact stored_fields_pinned. Qed.
+
+(* FNV-1a: one changed byte anywhere in the input always changes the 64-bit checksum *)
+Theorem C12_fnv_one_byte : forall (pre suf : bytes) (b1 b2 : byte), b1 <> b2 ->
+  fnv (pre ++ b1 :: suf) <> fnv (pre ++ b2 :: suf).
+Proof. exact fnv_one_byte. Qed.
+Print Assumptions C12_fnv_one_byte.
+
+(* every single-byte change at every offset of a header page: the slot becomes invalid exactly when the
+   byte is significant (a hashed field, the checksum, the page-type byte), is unchanged otherwise; never a
+   panic when open() checks the page type (ct = true: the repaired code; the GENERATED flag
+   Consts.meta_checks_page_type says which one the source is) *)
+Theorem C12_damage_one_byte : forall ct P m off b,
+  meta_wf m -> meta_end <= P -> off < P ->
+  let pg := encode_meta_page P (with_hash m) in
+  nth_error pg (N.to_nat off) <> Some b ->
+  read_slot ct (damage pg off b) =
+    if significant ct off then SlotInvalid
+    else if (off =? off_pg_type) then SlotPanic
+    else SlotValid (with_hash m).
+Proof. exact damage_one_byte. Qed.
+Print Assumptions C12_damage_one_byte.
+
+(* opening after the damage: the other header's state if the byte was significant, no change otherwise *)
+Theorem C12_open_after_damage : forall P m0 m1 (slot : bool) off b,
+  meta_wf m0 -> meta_wf m1 -> meta_end <= P -> off < P -> m_psz m0 = P -> m_psz m1 = P ->
+  let pg0 := encode_meta_page P (with_hash m0) in let pg1 := encode_meta_page P (with_hash m1) in
+  let d := fun pg => damage pg off b in
+  nth_error (if slot then pg1 else pg0) (N.to_nat off) <> Some b ->
+  select_slots P (read_slot true (if slot then pg0 else d pg0)) (read_slot true (if slot then d pg1 else pg1)) =
+    if significant true off then SelMeta (with_hash (if slot then m0 else m1))
+    else select_slots P (SlotValid (with_hash m0)) (SlotValid (with_hash m1)).
+Proof. exact open_after_damage. Qed.
+Print Assumptions C12_open_after_damage.
+
+(* the source at hand is the repaired one (generated) *)
+Theorem C12_source_checks_page_type : meta_checks_page_type = true.
+Proof. reflexivity. Qed.
